@@ -457,13 +457,13 @@ func (e *codecEnv) plan() []codecCase {
 	for i, p := range probePairs() {
 		cases = append(cases, codecCase{Part: "codec", Type: string(p.b.ProtoReflect().Descriptor().FullName()), Seed: int64(i), Probe: i + 1})
 	}
-	per := r.Pick(90, 900)
+	per := r.Pick(70, 900)
 	for _, mt := range e.types {
 		name := string(mt.Descriptor().FullName())
 		n := per
 		switch name {
 		case "mvcc.v1.Command":
-			n = r.Pick(2000, 24000)
+			n = r.Pick(1500, 24000)
 		case "replication.v1.SnapshotChunk":
 			n = r.Pick(600, 6000)
 		case "mvcc.v1.Txn", "mvcc.v1.RequestOp", "mvcc.v1.ResponseOp", "mvcc.v1.Compare", "mvcc.v1.CommandResult",
